@@ -3,7 +3,7 @@
 Template directives (each on its own line, introduced by `//@@`):
 
   //@@ fn file=<path> [impl="impl X"] name=<fn> [ret=<ident>] [as=<new fn name>] [vis=keep|none]
-  //@@ slice file=<path> [impl="impl X"] name=<fn> (block=/re/ | start=/re/ (end=/re/ | endblock=/re/))
+  //@@ slice file=<path> [impl="impl X"] name=<fn> (block=/re/ | start=/re/ (end=/re/ | endblock=/re/)) [raw=1]
         after=1 / before=1: the range starts after the start match / ends before the end match;
         block: the inside of the {..} that follows the match; start..end: whole lines from the start match to
         the end match; endblock: ... to the end of the {..} block that follows the end match
@@ -362,9 +362,12 @@ class Gen:
                     b0 = k + 1
             mb = masked[b0:bend]
             sb = src[b0:bend]
+            # raw=1: the anchors are matched on the source text itself (needed when an anchor contains a string literal,
+            # which the masked text blanks); offsets are the same, brace matching still uses the masked text
+            tb = sb if kv.get("raw") else mb
             if "block" in kv:
                 pat = re.compile(kv["block"].strip("/"), re.S)
-                ms = list(pat.finditer(mb))
+                ms = list(pat.finditer(tb))
                 if len(ms) != 1:
                     raise ExtractError("%s: block anchor /%s/ matched %d times" % (where, pat.pattern, len(ms)))
                 k = mb.find("{", ms[0].end() - 1 if mb[ms[0].end() - 1] == "{" else ms[0].end())
@@ -375,13 +378,13 @@ class Gen:
             else:
                 ps = re.compile(kv["start"].strip("/"), re.S | re.M)
                 pe = re.compile(kv.get("end", kv.get("endblock", "")).strip("/"), re.S | re.M)
-                ms = list(ps.finditer(mb))
+                ms = list(ps.finditer(tb))
                 if len(ms) != 1 and not (kv.get("first") and len(ms) > 1):
                     raise ExtractError("%s: start anchor /%s/ matched %d times" % (where, ps.pattern, len(ms)))
                 a = mb.rfind("\n", 0, ms[0].start()) + 1
                 if kv.get("after"):
                     a = ms[0].end()                      # the range starts right after the start anchor
-                me = [m for m in pe.finditer(mb) if m.start() >= ms[0].start()]
+                me = [m for m in pe.finditer(tb) if m.start() >= ms[0].start()]
                 if kv.get("end") == "$":
                     me = [re.compile(r"\Z").search(mb)]       # to the end of the function body
                 if not me:
